@@ -152,6 +152,8 @@ def run_seed(sid, tier="quick", props=None):
                           json.dumps(rp.get("divergences", [])[:1]))[:400]
             out["results"][pid] = {"exit": rc, "detected": bool(vio), "how": how, "detail": detail,
                                    "wall_s": round(time.time() - t)}
+            if not vio:
+                out["results"][pid]["output_tail"] = o[-1500:]
     finally:
         rmwt(wt)
         # this worktree's alt build dir is large: drop it
